@@ -196,3 +196,132 @@ def custom_op():
 
 def op_for_kind(kind: str, allow_big=True):
     return {"pol": pol_op(), "fock": fock_op(allow_big), "custom": custom_op()}[kind]
+
+
+# ----------------------------------------------------------------------------------------
+# program steps (drawn from static knowledge of the world; the interpreter skips steps that the
+# dynamic state makes inapplicable, e.g. a target destroyed by an earlier measurement)
+# ----------------------------------------------------------------------------------------
+def comp_op(info: Info, members: List[str]):
+    """composite operation + ordered operands among `members` (all in one composite envelope)"""
+    pols = [m for m in members if info.kind[m] == "pol"]
+    focks = [m for m in members if info.kind[m] == "fock"]
+    opts = []
+    if len(pols) >= 2:
+        opts.append(st.builds(lambda g, ops: dict(op=dict(type=f"comp:{g}"), targets=list(ops[:2])),
+                              st.sampled_from(["CX", "CZ", "SWAP"]), st.permutations(pols)))
+    if len(pols) >= 3:
+        opts.append(st.builds(lambda ops: dict(op=dict(type="comp:CSWAP"), targets=list(ops[:3])), st.permutations(pols)))
+    if len(focks) >= 2:
+        opts.append(st.builds(lambda e, ops: dict(op=dict(type="comp:BS", params=dict(eta=e)), targets=list(ops[:2])), angle, st.permutations(focks)))
+    if len(members) >= 2:
+        def mk(ops, k, sd, ph):
+            ops = list(ops[:k])
+            facs = []
+            for i, o in enumerate(ops):
+                if info.kind[o] == "pol":
+                    facs.append(dict(kind="pol", useed=sd + i))
+                elif info.kind[o] == "custom":
+                    facs.append(dict(kind="custom", useed=sd + i))
+                else:
+                    facs.append(dict(kind="fock", phi=ph + i))
+            return dict(op=dict(type="comp:Expression", factors=facs), targets=ops)
+        opts.append(st.builds(mk, st.permutations(members), st.integers(2, min(3, len(members))), seeds, angle))
+    if not opts:
+        return None
+    return st.one_of(*opts)
+
+
+@st.composite
+def step(draw, info: Info, kinds):
+    k = draw(st.sampled_from(kinds))
+    subs = info.subs
+    ce = "ce0" if info.ce_members else None
+    mem = info.ce_members.get("ce0", [])
+
+    def entry_for(ts):
+        es = []
+        if len(ts) == 1:
+            es.append("state")
+        envs = {info.env_of(t) for t in ts}
+        if len(envs) == 1 and None not in envs and len(ts) <= 2:
+            es.append("env")
+        if ce and all(t in mem for t in ts):
+            es += [ce, ce]
+        return draw(st.sampled_from(es)) if es else None
+
+    if k == "op":
+        t = draw(st.sampled_from(subs))
+        e = entry_for([t])
+        if e == "env" and info.kind[t] == "custom":
+            e = "state"
+        return dict(k="op", entry=e, targets=[t], op=draw(op_for_kind(info.kind[t])))
+    if k == "comp":
+        s_ = comp_op(info, mem) if ce else None
+        if s_ is None:
+            t = draw(st.sampled_from(subs))
+            return dict(k="op", entry="state", targets=[t], op=draw(op_for_kind(info.kind[t])))
+        c = draw(s_)
+        return dict(k="op", entry=ce, targets=c["targets"], op=c["op"])
+    if k == "struct":
+        calls = ["expand", "contract"]
+        if info.spec["envs"]:
+            calls += ["env_combine", "env_reorder", "env_expand", "env_contract"]
+        if ce:
+            calls += ["ce_combine", "ce_combine", "ce_reorder", "ce_reorder", "ce_expand", "new_ce"]
+        call = draw(st.sampled_from(calls))
+        if call in ("expand", "contract"):
+            d = dict(k="struct", call=call, sub=draw(st.sampled_from(subs)))
+            if call == "contract":
+                d["final"] = draw(st.sampled_from([0, 1]))
+            return d
+        if call.startswith("env_"):
+            e = f"e{draw(st.integers(0, len(info.spec['envs']) - 1))}"
+            d = dict(k="struct", call=call, env=e)
+            if call == "env_reorder":
+                order = draw(st.permutations([e + ".f", e + ".p"]))
+                d["order"] = list(order[: draw(st.integers(1, 2))])
+            return d
+        if call == "new_ce":
+            units = info.spec["ces"][0]
+            extra = [u for u in ([f"e{i}" for i in range(len(info.spec["envs"]))] + [f"c{i}" for i in range(len(info.spec["customs"]))]) if u not in units]
+            pool = ["ce0"] + extra + list(units)
+            n = draw(st.integers(1, min(3, len(pool))))
+            return dict(k="struct", call="new_ce", members=list(draw(st.permutations(pool))[:n]))
+        n = draw(st.integers(1, min(4, len(mem))))
+        return dict(k="struct", call=call, ce=ce, members=list(draw(st.permutations(mem))[:n]))
+    if k in ("trace_out", "kraus", "measure", "povm"):
+        pool = mem if (ce and draw(st.integers(0, 3)) > 0) else subs
+        maxn = {"trace_out": 3, "kraus": 2, "measure": 3, "povm": 2}[k]
+        n = draw(st.integers(1, min(maxn, len(pool))))
+        ts = list(draw(st.permutations(pool))[:n])
+        e = entry_for(ts)
+        if e is None:
+            ts = ts[:1]
+            e = entry_for(ts)
+        d = dict(k=k, entry=e, targets=ts)
+        if k == "kraus":
+            d.update(kseed=draw(seeds), nops=draw(st.integers(1, 4)), unitary=draw(st.integers(0, 4)) == 0)
+        if k == "measure":
+            d.update(sep=draw(st.booleans()), destructive=draw(st.booleans()), script=draw(st.lists(st.integers(0, 5), min_size=0, max_size=6)))
+        if k == "povm":
+            d.update(pseed=draw(seeds), nops=draw(st.integers(2, 4)), projective=draw(st.booleans()), destructive=draw(st.booleans()),
+                     script=draw(st.lists(st.integers(0, 5), min_size=0, max_size=4)))
+        return d
+    if k == "resize":
+        focks = [s for s in subs if info.kind[s] == "fock"]
+        t = draw(st.sampled_from(focks))
+        e = entry_for([t])
+        return dict(k="resize", entry=e, target=t, n=draw(st.integers(0, 7)))
+    if k == "set_contraction":
+        return dict(k="set_contraction", value=draw(st.booleans()))
+    raise ValueError(k)
+
+
+@st.composite
+def program_case(draw, kinds, max_steps=4, world_kwargs=None, min_steps=1):
+    spec, layout = draw(world_and_layout(**(world_kwargs or {})))
+    info = Info(spec, layout)
+    n = draw(st.integers(min_steps, max_steps))
+    steps = [draw(step(info, kinds)) for _ in range(n)]
+    return dict(spec=spec, layout=layout, contraction=draw(st.booleans()), steps=steps)
